@@ -44,9 +44,11 @@ var c15Names = []string{
 	"refs/x/y",
 	// multi-byte characters: a prefix's length in bytes is not its length in characters
 	"remotes/b\u00fcro/x", "remotes/b\u00fcro/y", "remotes/b\u00fc/x", "heads/\u00e9", "heads/\u00e9a", "tags/\u65e5\u672c",
+	// characters of four UTF-8 bytes (and U+FFFF) right after a prefix
+	"heads/\U0001F680", "heads/a\U0001F680", "remotes/o/\U0001F680x", "tags/t\uffffz", "remotes/\U0001F680/x",
 }
 var c15Prefixes = []string{"", "heads/", "heads/a", "heads/a_", "heads/a%", "heads/A", "remotes/", "remotes/o/", "remotes/o_/", "remotes/o%/", "remotes/O", "tags/", "tags/t", "tags/t_", "txs/", "txs/" + c15tx1 + "/", "h", "x", "remotes/b\u00fcro/", "remotes/b\u00fc", "heads/\u00e9", "tags/\u65e5"}
-var c15Remotes = []string{"o", "o_", "oX", "O", "O_", "o%", "ob", "zz", "b\u00fcro", "b\u00fc"}
+var c15Remotes = []string{"o", "o_", "oX", "O", "O_", "o%", "ob", "zz", "b\u00fcro", "b\u00fc", "\U0001F680"}
 
 func init() {
 	Register(&Profile{
@@ -122,6 +124,7 @@ func init() {
 type c15Log struct {
 	Old, New    []byte
 	Action, Msg string
+	Tx          string // transaction the entry was written under ("" = none)
 }
 
 type c15Model struct {
@@ -212,6 +215,10 @@ func execC15(t *testing.T, raw json.RawMessage, res *Result) {
 	}
 	defer func() { db.Close() }()
 	defer SQLFault.Arm(0)
+	if _, err := db.NewTransaction(&ref.Transaction{ID: uuid.MustParse(c15tx1), Status: ref.TSInProgress, Begin: bubbleEpoch}); err != nil {
+		res.Invalid("transaction row: %v", err)
+		return
+	}
 	model := &c15Model{m: map[string][]byte{}, logs: map[string][]c15Log{}}
 	ctr := 0
 	newVal := func() []byte { ctr++; return meowSum([]byte(fmt.Sprintf("v%d", ctr))) }
@@ -259,6 +266,14 @@ func execC15(t *testing.T, raw json.RawMessage, res *Result) {
 			}
 			for i, g := range got {
 				w := want[len(want)-1-i] // newest first
+				gtx := ""
+				if g.Txid != nil {
+					gtx = g.Txid.String()
+				}
+				if gtx != w.Tx {
+					res.Violate("log-differs", "%s: log of %q entry %d (newest first) carries transaction %q, model %q", when, name, i, gtx, w.Tx)
+					return false
+				}
 				if !bytes.Equal(g.NewOID, w.New) || !bytes.Equal(g.OldOID, w.Old) || g.Action != w.Action || g.Message != w.Msg {
 					res.Violate("log-differs", "%s: log of %q entry %d (newest first): old=%x new=%x %s/%s, model old=%x new=%x %s/%s", when, name, i, g.OldOID, g.NewOID, g.Action, g.Message, w.Old, w.New, w.Action, w.Msg)
 					return false
@@ -296,8 +311,15 @@ func execC15(t *testing.T, raw json.RawMessage, res *Result) {
 			mutating = true
 			v := newVal()
 			msg := fmt.Sprintf("m%d", ctr)
-			opErr = ref.SaveRef(db, op.A, v, "au", "au@x", "act", msg, nil)
-			model.logs[op.A] = append(model.logs[op.A], c15Log{Old: model.m[op.A], New: v, Action: "act", Msg: msg})
+			var txid *uuid.UUID
+			txs := ""
+			if ctr%3 == 0 {
+				// every third logged set is written under a transaction: the entry carries its id
+				id := uuid.MustParse(c15tx1)
+				txid, txs = &id, c15tx1
+			}
+			opErr = ref.SaveRef(db, op.A, v, "au", "au@x", "act", msg, txid)
+			model.logs[op.A] = append(model.logs[op.A], c15Log{Old: model.m[op.A], New: v, Action: "act", Msg: msg, Tx: txs})
 			model.m[op.A] = v
 		case "setlogburst":
 			mutating = true
